@@ -1933,8 +1933,24 @@ func (e *Engine) paramEscape(fn *ssa.Function, i int, depth int) escSum {
 	seen := map[ssa.Value]bool{}
 	var visit func(v ssa.Value)
 	// storedInto: the tracked value becomes reachable from the object addr belongs to
-	storedInto := func(addr ssa.Value) {
+	var storedInto func(addr ssa.Value)
+	phiSeen := map[*ssa.Phi]bool{}
+	storedInto = func(addr ssa.Value) {
 		b := baseOf(addr)
+		// the object written is one of several (an entry found under the key, or a fresh one): each of them
+		if ph, isPhi := b.(*ssa.Phi); isPhi {
+			if phiSeen[ph] {
+				return
+			}
+			phiSeen[ph] = true
+			for _, ed := range ph.Edges {
+				if c, isC := ed.(*ssa.Const); isC && c.Value == nil {
+					continue
+				}
+				storedInto(ed)
+			}
+			return
+		}
 		if k := paramIdx(b); k >= 0 {
 			if k != i {
 				res.into |= 1 << uint(k)
